@@ -40,6 +40,7 @@ type recPkt struct {
 type caseObs struct {
 	tag     string
 	nMedias int
+	off     int // medias of the stream that precede the described ones (a back channel in front)
 	tap     wireTap
 	stream  *gortsplib.ServerStream // the stream "published at" the case's URL (own one per case)
 	desc    *description.Session
@@ -132,7 +133,7 @@ func (w *worker) onEvent(e rig.Event) {
 		o := obs{Kind: e.Kind, Path: e.Path, Query: e.Query}
 		if e.Kind == "play" || e.Kind == "record" {
 			o.SessPath, o.SessQuery = e.Sess.Path(), e.Sess.Query()
-			ref := co.desc.Medias
+			ref := co.desc.Medias[co.off:]
 			if e.Kind == "record" {
 				ref = nil
 				if ad := e.Sess.AnnouncedDescription(); ad != nil {
@@ -216,8 +217,15 @@ func (w *worker) close() { w.ts.Close() }
 
 var tagCtr atomic.Int64
 
-func (w *worker) register(n int) *caseObs {
+func (w *worker) register(n int, backFirst ...bool) *caseObs {
 	co := &caseObs{tag: fmt.Sprintf("verif:c%d", tagCtr.Add(1)), nMedias: n, desc: sameDesc(n)}
+	if len(backFirst) == 1 && backFirst[0] {
+		f := &format.Generic{PayloadTyp: 96, RTPMa: "private/8000"}
+		_ = f.Init()
+		bc := &description.Media{Type: description.MediaTypeAudio, IsBackChannel: true, Formats: []format.Format{f}}
+		co.desc.Medias = append([]*description.Media{bc}, co.desc.Medias...)
+		co.off = 1
+	}
 	co.stream = &gortsplib.ServerStream{Server: w.ts.S, Desc: co.desc}
 	if err := co.stream.Initialize(); err != nil {
 		run.Fatal("stream: %v", err)
@@ -389,7 +397,10 @@ func (w *worker) runPlay(c urlCase, r *rand.Rand, keepalive bool) ([]finding, ca
 	var st caseStats
 	c.Mode = "play"
 	add := func(key, what, step string) { fs = append(fs, finding{Key: key, What: what, Step: step}) }
-	co := w.register(c.Medias)
+	co := w.register(c.Medias, c.BackFirst)
+	if c.BackFirst {
+		run.Count("play-cases-with-a-back-channel-in-front", 1)
+	}
 	defer w.unregister(co)
 	finish := func() ([]finding, caseStats) {
 		hs, _ := co.snapshot()
@@ -466,7 +477,7 @@ func (w *worker) runPlay(c urlCase, r *rand.Rand, keepalive bool) ([]finding, ca
 	}
 	stream, sdesc := co.stream, co.desc
 	write := func(f *rig.Flow) func(*rtp.Packet) error {
-		m := sdesc.Medias[f.Media]
+		m := sdesc.Medias[f.Media+co.off]
 		return func(p *rtp.Packet) error { return stream.WritePacketRTP(m, p) }
 	}
 	for _, f := range all.Flows {
